@@ -209,6 +209,8 @@ def gen_atomic_grids_cider(
     full_lmax=CIDER_DEFAULT_LMAX,
     **kwargs
 ):
+    if full_lmax < 1:
+        raise ValueError("full_lmax must be at least 1")
     if atom_grid is None:
         atom_grid = {}
     if isinstance(atom_grid, (list, tuple)):
